@@ -301,7 +301,7 @@ def p_C06(ctx):
 
 
 def p_C12(ctx):
-    flow_trace(ctx, "fq2", 16000, 240000, chunk=4000)
+    flow_trace(ctx, "fq2", 18000, 240000, chunk=3000)
     levelb_sop(ctx)
 
 
@@ -431,7 +431,7 @@ def flow_dual(ctx, suite, nq, nt, chunk, extra=(), label=None):
 def p_C18(ctx):
     tw = twist_file(ctx, 2 if ctx.quick() else 8)
     flow_dual(ctx, "fp", 6000, 100000, 6000, extra=["--focus", "nosweep"])
-    flow_dual(ctx, "fq2", 3000, 50000, 3000)
+    flow_dual(ctx, "fq2", 3000, 50000, 3000, extra=["--focus", "nosweep"])
     flow_dual(ctx, "conv", 10 ** 9, 10 ** 9, 4000)
     flow_dual(ctx, "sqrt", 800, 8000, 400)
     flow_dual(ctx, "decode", 10 ** 9, 10 ** 9, 700)
